@@ -27,7 +27,7 @@ LITS = {
                  "2020-01-01T10:00:00+00:00", "2020-01-01T10:00:00-00:00", "2020-01-01T10:00+00:00",
                  "2020-01-01T10:00:00.000Z", "2020-01-01T10:00:00+14:00", "2020-01-01T00:00:00-12:00"],
     "duration": ["P1D", "PT1S", "P1Y2M3DT4H5M6S", "-P3D", "+PT0.5S", "P365DT12H1M1.1S",
-                 "PT12H", "P2M", "P1Y"],
+                 "PT12H", "P2M", "P1Y", "PT", "P1DT", "P", "-P1Y2MT", "P0D", "PT0S", "P00DT00H", "PT1M", "P1M"],
     "geo": ["POINT(1 2)", "SRID=4326;POINT(5.5 50.1)", "a''b", "''", "O''Neil POINT(0 0)",
             "POLYGON((0 0, 0 1, 1 1, 1 0, 0 0))"],
 }
